@@ -14,6 +14,10 @@ MUT = {
  "m10": ("internal/pfcp/node.go", "\t\t\tfor i := range usars {\n\t\t\t\tusars[i].USARTrigger.Flags |= report.USAR_TRIG_TERMR\n\t\t\t}\n\t\t\treturn usars", "\t\t\treturn usars"),
  "m11": ("internal/report/report.go", "\t\tm.UplinkVolume,\n\t\tm.DownlinkVolume,\n\t\tm.TotalPktNum,", "\t\tm.DownlinkVolume,\n\t\tm.UplinkVolume,\n\t\tm.TotalPktNum,"),
  "m12": ("internal/pfcp/report.go", "\t\t\tsess.log.Warnf(\"serveUSAReport: URRInfo[%#x] not found\", r.URRID)\n\t\t\tcontinue", "\t\t\tsess.log.Warnf(\"serveUSAReport: URRInfo[%#x] not found\", r.URRID)\n\t\t\tbreak"),
+ "m13": ("internal/report/report.go", "\tUSAR_TRIG_LIUSA\n\tUSAR_TRIG_TERMR", "\tUSAR_TRIG_TERMR\n\tUSAR_TRIG_LIUSA"),
+ "m14": ("internal/report/report.go", "\tcase RPT_TRIG_ENVCL:\n\t\tt.Flags |= USAR_TRIG_ENVCL", "\tcase RPT_TRIG_ENVCL:\n\t\tt.Flags |= USAR_TRIG_MONIT"),
+ "m15": ("internal/gtpv1/msg.go", "\tb[2] = e.PDUType << 4", "\tb[2] = e.PDUType << 3"),
+ "m16": ("internal/report/report.go", "\tv := make([]byte, max(2, len(b)))\n\tcopy(v, b)\n\ta.Flags = binary.LittleEndian.Uint16(v)", "\tv := make([]byte, max(2, len(b)))\n\tcopy(v, b)\n\ta.Flags = binary.BigEndian.Uint16(v)"),
 }
 name = sys.argv[1]
 f, old, new = MUT[name]
@@ -25,7 +29,7 @@ try:
     env = dict(os.environ, GOFLAGS="-mod=mod", GOPROXY="off", GOSUMDB="off", GOTOOLCHAIN="local")
     r = subprocess.run(["go", "build", "./..."], cwd="/repo", env=env)
     print("build rc", r.returncode)
-    r = subprocess.run("go test -count=1 ./internal/pfcp/ ./internal/report/ 2>&1 | tail -3", shell=True, cwd="/repo", env=env)
+    r = subprocess.run("go test -count=1 ./internal/pfcp/ ./internal/report/ ./internal/gtpv1/ 2>&1 | tail -3", shell=True, cwd="/repo", env=env)
     for c in sys.argv[2:]:
         r = subprocess.run("/verif/check %s 2>&1 | grep -v '^  rejected' | tail -4" % c, shell=True, cwd="/verif")
 finally:
